@@ -1156,15 +1156,22 @@ func (d *dealer) syncYield(callee *wamp.Session, msg *wamp.Yield, progress, canR
 
 		// Let's check: was ppt feature announced by callee?
 		if !callee.HasFeature(wamp.RoleCallee, wamp.FeaturePayloadPassthruMode) {
-			// Notify caller that CALL was erred.
+			// Notify caller that CALL was erred. This ends the call, also
+			// when the offending YIELD was a progressive one.
 			d.trySend(caller, &wamp.Error{
-				Type:    msg.MessageType(),
-				Request: msg.Request,
+				Type:    wamp.CALL,
+				Request: callID.request,
 				Details: wamp.Dict{
 					"error": ErrPPTNotSupportedByPeer.Error(),
 				},
 				Error: wamp.ErrFeatureNotSupported,
 			})
+			if invk.timerCancel != nil {
+				invk.timerCancel()
+			}
+			delete(d.invocations, invkReqID)
+			delete(d.invocationByCall, callID)
+			delete(d.calls, callID)
 			// Protocol violation, so need to abort connection.
 			abortMsg := wamp.Abort{Reason: wamp.ErrProtocolViolation}
 			abortMsg.Details = wamp.Dict{}
@@ -1184,6 +1191,15 @@ func (d *dealer) syncYield(callee *wamp.Session, msg *wamp.Yield, progress, canR
 				},
 				Error: wamp.ErrFeatureNotSupported,
 			})
+			if !progress {
+				// The call ends here: the caller must still be answered.
+				d.trySend(caller, &wamp.Error{
+					Type:    wamp.CALL,
+					Request: callID.request,
+					Details: wamp.Dict{},
+					Error:   wamp.ErrFeatureNotSupported,
+				})
+			}
 			return false
 		}
 
